@@ -192,4 +192,48 @@ AlgoDivE2(N, a, b) ==
   ELSE IF a = <<>> THEN <<>>
   ELSE LET r == DivMagE2(N, Abs(N, a), Abs(N, b))
        IN IF Sign(N, a) # Sign(N, b) THEN Neg(N, r) ELSE r
+
+-----------------------------------------------------------------------------
+(* PxE1<N>::mul (src/pxe1/ops.rs): one exponent bit.  Same word layout and product; the        *)
+(* exponent arithmetic is done with xor (`exp ^= 2`, `exp ^= 1`), the fraction is shifted by    *)
+(* reg - 1, and the tail has two branches only (reg /= N-2: masks at bit 63-N; reg = N-2: the   *)
+(* exponent bit is the rounding bit and the whole fraction is sticky).                           *)
+SepE1(N, a) ==
+  LET d  == DecodeMag(N, 1, a)
+      nf == BitLen(d.m) - 1
+      s  == d.e + nf
+      k  == IF s >= 0 THEN s \div 2 ELSE -((-s + 1) \div 2)
+  IN [k |-> k, ex |-> s - 2 * k, f |-> Shl(d.m, 30 - nf)]
+
+MulTailE1(N, k, ex, F) ==
+  LET c == CalcRegime(k) IN
+  IF c.reg > N - 2 THEN (IF c.s THEN TopBits(W31, N) ELSE Pow2(32 - N))
+  ELSE
+    LET f64  == Shr(F, c.reg - 1)
+        wide == c.reg # N - 2
+        bnp1 == IF wide THEN Bit(f64, 63 - N) = 1 ELSE ex # 0
+        more == IF wide THEN LowNonZero(f64, 63 - N) ELSE f64 # <<>>
+        ex2  == IF wide THEN ex ELSE 0
+        fa   == IF wide THEN TopBits(Shr(f64, 32), N) ELSE <<>>
+        exw  == IF c.reg <= 29 THEN Shl(FromInt(ex2), 29 - c.reg) ELSE <<>>
+        u    == Add(Add(c.bits, exw), fa)
+    IN IF bnp1 THEN Add(u, Shl(FromInt(BOr(Bit(u, 32 - N), more)), 32 - N)) ELSE u
+
+MulMagE1(N, a, b) ==
+  LET x == SepE1(N, a)  y == SepE1(N, b)
+      e0 == x.ex + y.ex
+      k1 == IF e0 > 1 THEN x.k + y.k + 1 ELSE x.k + y.k
+      e1 == IF e0 > 1 THEN e0 - 2 ELSE e0                 \* exp ^= 2 on 2 or 3 ... e0 is at most 2
+      P0 == Mul(x.f, y.f)
+      rc == Shr(P0, 61) # <<>>
+      k2 == IF rc /\ e1 # 0 THEN k1 + 1 ELSE k1
+      e2 == IF rc THEN 1 - e1 ELSE e1                     \* exp ^= 1
+      P  == IF rc THEN Shr(P0, 1) ELSE P0
+  IN Shr(MulTailE1(N, k2, e2, Low(P, 60)), 32 - N)
+
+AlgoMulE1(N, a, b) ==
+  IF IsNaR(N, a) \/ IsNaR(N, b) THEN NaR(N)
+  ELSE IF a = <<>> \/ b = <<>> THEN <<>>
+  ELSE LET r == MulMagE1(N, Abs(N, a), Abs(N, b))
+       IN IF Sign(N, a) # Sign(N, b) THEN Neg(N, r) ELSE r
 =======================================================================
